@@ -39,8 +39,71 @@ package jd
 //@ contract (jsonStringOrInteger).Equals
 //@   assume_iface 0 deferred string-or-integer token (only created by the JSON Pointer reader)
 
+// Every v1 diff implementation returns a valid diff built from fresh storage: no hunk path may
+// alias the caller's path slice or a spare-capacity extension of it (the append(path, i) idiom).
+//@ contract JsonNode.diff
+//@   fresh ret0
+//@   requires validNode(self) && validNode(n) && validNodes(p)
+//@   ensures strategy == strictPatchStrategy ==> validDiff(ret0)
+//@   carries C17
+
+//@ contract JsonNode.Diff
+//@   fresh ret0
+//@   requires validNode(self) && validNode(n)
+//@   carries C17
+
+//@ contract (path).clone
+//@   fresh ret0
+//@   ensures len(ret0) == len(p) && forallInt(0, len(p), func(i int) bool { return same(ret0[i], p[i]) })
+
+//@ contract (path).prependMetadataMerge
+//@   fresh ret0
+
+//@ contract nodeList
+//@   fresh ret0
+//@   requires validNodes(n)
+//@   ensures validNodes(ret0)
+//@   ensures len(n) == 0 ==> len(ret0) == 0
+
+//@ contract (jsonStringOrInteger).diff
+//@   assume_iface 0 delegates to the public Diff of the string or number it stands for, with the caller's metadata
+
+//@ contract (jsonObject).diff
+//@   loop "range o1" invariant forallInt(0, len(o1Keys), func(i int) bool { return mapHas(o1, o1Keys[i]) })
+//@   loop "range o2" invariant forallInt(0, len(o2Keys), func(i int) bool { return mapHas(o2, o2Keys[i]) })
+//@   loop "range o1Keys" invariant validDiff(d) || strategy != strictPatchStrategy
+//@   loop "range o2Keys" invariant validDiff(d) || strategy != strictPatchStrategy
+
+//@ contract (path).appendIndex
+//@   requires validNodes(p) && validObject(o)
+//@   ensures validNodes(ret0)
+
+//@ contract (jsonSet).diff
+//@   loop "range s1" invariant forallKey(s1Map, s1Map, func(k [8]byte) bool { return validNode(s1Map[k]) })
+//@   loop "range s2" invariant forallKey(s2Map, s2Map, func(k [8]byte) bool { return validNode(s2Map[k]) })
+//@   loop "range s1Map" invariant forallInt(0, len(s1Hashes), func(i int) bool { return mapHas(s1Map, s1Hashes[i]) })
+//@   loop "range s2Map" invariant forallInt(0, len(s2Hashes), func(i int) bool { return mapHas(s2Map, s2Hashes[i]) })
+//@   loop "range s1Hashes" invariant (validDiff(d) || strategy != strictPatchStrategy) && validHunk(e)
+//@   loop "range s2Hashes" invariant (validDiff(d) || strategy != strictPatchStrategy) && validHunk(e)
+
+//@ contract (jsonMultiset).diff
+//@   loop "range a1" invariant forallKey(a1Map, a1Map, func(k [8]byte) bool { return validNode(a1Map[k]) }) && forallKey(a1Counts, a1Counts, func(k [8]byte) bool { return mapHas(a1Map, k) })
+//@   loop "range a2" invariant forallKey(a2Map, a2Map, func(k [8]byte) bool { return validNode(a2Map[k]) }) && forallKey(a2Counts, a2Counts, func(k [8]byte) bool { return mapHas(a2Map, k) })
+//@   loop "range a1Counts" invariant forallInt(0, len(a1Hashes), func(i int) bool { return mapHas(a1Counts, a1Hashes[i]) })
+//@   loop "range a2Counts" invariant forallInt(0, len(a2Hashes), func(i int) bool { return mapHas(a2Counts, a2Hashes[i]) })
+//@   loop "range a1Hashes" invariant validHunk(e)
+//@   loop "for i < removed" invariant validHunk(e)
+//@   loop "range a2Hashes" invariant validHunk(e)
+//@   loop "for i < added" invariant validHunk(e)
+
+//@ contract (jsonList).diff
+//@   loop "for i != to" invariant validDiff(d) || strategy != strictPatchStrategy
+//@   loop "for i != to" invariant maxLen >= len(a1) && maxLen >= len(a2) && ((by == -1 && to == -1 && -1 <= i && i < maxLen) || (by == 1 && to == maxLen && 0 <= i && i <= maxLen))
+
 //@ contract diff
-//@   requires validNode(a) && validNode(b)
+//@   fresh ret0
+//@   requires validNode(a) && validNode(b) && validNodes(p)
+//@   ensures strategy == strictPatchStrategy ==> validDiff(ret0)
 //@   ensures_bounded [C17] (len(ret0) == 0) == a.Equals(b, metadata...)
 //@   ensures [C17] specListMode(metadata) ==> (len(ret0) == 0) == specEq(a, b, metadata)
 //@   carries C17
@@ -106,8 +169,19 @@ package jd
 //@   opaque
 //@   axiom
 
-// v1 NewJsonNode is not verified (v1 is in maintenance); its result validity is assumed.
-//@ contract NewJsonNode
+//@ contract validYaml
+//@   opaque
 //@   trusted
+//@ contract validAny
+//@   opaque
+//@   axiom
+
+//@ contract NewJsonNode
+//@   requires validAny(n)
 //@   ensures ret1 == nil ==> validNode(ret0)
-//@   ensures specScalarAny(n) ==> ret1 == nil
+//@   ensures ret1 == nil && specIsStringMap(n) ==> specIsObject(ret0)
+//@   ensures specAllNodes(n) || specScalarAny(n) ==> ret1 == nil
+//@   loop "range t" invariant validObject(m)
+//@   loop "range t #2" invariant validObject(m)
+//@   loop "range t #3" invariant forallInt(0, idx, func(i int) bool { return validNode(l[i]) })
+//@   carries C17 C18
